@@ -25,7 +25,7 @@ TARGETS = ['valjean.cosette.depgraph:DepGraph.__init__', 'valjean.cosette.depgra
            'valjean.cosette.rlist:RList.__setitem__', 'valjean.cosette.rlist:RList.__delitem__',
            'valjean.cosette.rlist:RList.insert', 'valjean.cosette.rlist:RList.swap', 'valjean.cosette.rlist:RList.index']
 BOUNDS = {
-    'quick': {'nodes': '<= 3 (+ up to 2 new nodes introduced by the operation)', 'self_loops': 'no (yes for <= 2 nodes)',
+    'quick': {'nodes': '<= 3 (+ up to 2 new nodes introduced by the operation); all 4-node states for transitive reduction, closure and topological sort', 'self_loops': 'no (yes for <= 2 nodes)',
               'operations': 'one operation from every state: add_node, add_dependency, remove_node, remove_dependency, merge/+, copy, invert, '
                             'transitive_reduction/closure, topological_sort; flatten with one nested graph of <= 2 nodes (empty included)',
               'rlist': 'lists of <= 3 entries with duplicates, one operation'},
@@ -524,7 +524,12 @@ def jobs(tier):
                 ('ops', dict(n=2, self_loops=True, steps=1)), ('ops', dict(n=3, self_loops=False, steps=1)),
                 ('flatten', dict(n_outer=2, n_inner=0, deep=False)), ('flatten', dict(n_outer=2, n_inner=1, deep=False)),
                 ('flatten', dict(n_outer=2, n_inner=2, deep=False)), ('flatten', dict(n_outer=1, n_inner=1, deep=True)),
-                ('rlist', dict(n=0, steps=2)), ('rlist', dict(n=2, steps=1)), ('rlist', dict(n=3, steps=1))]
+                ('rlist', dict(n=0, steps=2)), ('rlist', dict(n=2, steps=1)), ('rlist', dict(n=3, steps=1)),
+                # fewest / most edges and the order of a sort only become non-trivial with four nodes (a redundant edge next to a
+                # node that was already walked from another start): one operation from every 4-node state
+                ('ops', dict(n=4, self_loops=False, steps=1, first_op='reduction')),
+                ('ops', dict(n=4, self_loops=False, steps=1, first_op='closure')),
+                ('ops', dict(n=4, self_loops=False, steps=1, first_op='sort'))]
     else:
         plan = [('ops', dict(n=0, self_loops=False, steps=2)), ('ops', dict(n=1, self_loops=True, steps=2)),
                 ('ops', dict(n=2, self_loops=True, steps=2)), ('ops', dict(n=3, self_loops=True, steps=1)),
